@@ -30,6 +30,9 @@ structure Limits where
   /-- ids `< inboxTopics` other than the heartbeat have an application inbox (`p2p.New` makes channels
   for `0..Topic_HEARTBEAT`); streams `inboxTopics ≤ id < invalid` exist but their inbox is a nil channel -/
   inboxTopics : Nat
+  /-- `Send` ends the connection when `queueSends` reports that only a prefix of the message was
+  enqueued (generated fact `partialEnqueueTearsDown`) -/
+  tearDownOnPartial : Bool
   chunk_pos : 0 < chunk
 
 def Limits.code : Limits where
@@ -39,6 +42,7 @@ def Limits.code : Limits where
   heartbeat := Gen.Mux.topic_HEARTBEAT
   invalid := Gen.Mux.topic_INVALID
   inboxTopics := Gen.Mux.topic_HEARTBEAT
+  tearDownOnPartial := Gen.Mux.partialEnqueueTearsDown
   chunk_pos := by decide
 
 /-- `p2p.split(buf, lim)`:
@@ -83,24 +87,35 @@ structure Sender where
   queues : TMap Packet
   /-- what has been written to the connection, in order -/
   wire : List Packet
+  /-- the connection has been stopped on this side (`MultiConn.Stop`): every stream is closed, the
+  send loop has quit -/
+  dead : Bool
   deriving Repr
 
-def Sender.init : Sender := ⟨[], []⟩
+def Sender.init : Sender := ⟨[], [], false⟩
 
-/-- `Send` with an atomic enqueue: all packets of the message, contiguously (the stream mutex) -/
+/-- `Send` with an atomic enqueue: all packets of the message, contiguously (the stream mutex);
+refused (returns false, nothing queued) once the connection is stopped -/
 def Sender.send (L : Limits) (s : Sender) (topic : Nat) (msg : Bytes) : Sender :=
-  { s with queues := s.queues.set topic (s.queues.get topic ++ packetsOf L topic msg) }
+  if s.dead then s
+  else { s with queues := s.queues.set topic (s.queues.get topic ++ packetsOf L topic msg) }
 
 /-- `queueSends` giving up after `queueSendTimeout` BETWEEN packets: only the first `k` packets are
-enqueued and they stay in the queue (DESIGN §8-F8); `Send` returns false -/
+enqueued and they stay in the queue (DESIGN §8-F8); `Send` returns false — and, when the code has
+the repair (`tearDownOnPartial`), ends the connection in the same call. (The model takes the failed
+enqueue and the teardown as one step: `c.Error` follows in the same goroutine, and the orphaned
+packets sit behind a queue that has been full for the whole timeout.) -/
 def Sender.sendPartial (L : Limits) (s : Sender) (topic : Nat) (msg : Bytes) (k : Nat) : Sender :=
-  { s with queues := s.queues.set topic (s.queues.get topic ++ (packetsOf L topic msg).take k) }
+  if s.dead then s
+  else { s with queues := s.queues.set topic (s.queues.get topic ++ (packetsOf L topic msg).take k),
+                dead := L.tearDownOnPartial }
 
 /-- one turn of the send loop's `select`: it takes the head of ANY non-empty queue -/
 def Sender.pick (s : Sender) (topic : Nat) : Sender :=
-  match s.queues.get topic with
-  | [] => s
-  | p :: rest => { queues := s.queues.set topic rest, wire := s.wire ++ [p] }
+  if s.dead then s
+  else match s.queues.get topic with
+    | [] => s
+    | p :: rest => { s with queues := s.queues.set topic rest, wire := s.wire ++ [p] }
 
 /-! ### receiver -/
 
